@@ -508,6 +508,25 @@ func famPfScope(o *Out, r *RNG, thorough bool) {
 			}
 		}
 	}
+	// segment names that mean something elsewhere (the well-known URIs, the servers' own names): below a mount prefix a
+	// path is classified by its depth alone
+	for _, spelled := range []string{"/dav", "/dav/", "/s/d/v", "/s/d/v/"} {
+		prefix := strings.TrimSuffix(spelled, "/")
+		for _, server := range []string{"caldav", "carddav"} {
+			for _, hs := range []string{"caldav", "carddav", ".well-known"} {
+				pr := prefix + "/.well-known/"
+				h := hier{slash: strings.HasSuffix(spelled, "/"), prefix: prefix, principal: pr, homeSet: pr + hs + "/",
+					colls: []string{pr + hs + "/work/"}, objs: map[string][]string{pr + hs + "/work/": {pr + hs + "/work/a.ics"}}}
+				for _, depth := range []string{"", "0", "1"} {
+					emitScope(o, server, h, "principal", pr, depth, "allprop")
+					emitScope(o, server, h, "principal", strings.TrimSuffix(pr, "/"), depth, "allprop")
+					emitScope(o, server, h, "homeSet", h.homeSet, depth, "allprop")
+					emitScope(o, server, h, "homeSet", strings.TrimSuffix(h.homeSet, "/"), depth, "allprop")
+					emitScope(o, server, h, "collection", h.colls[0], depth, "prop")
+				}
+			}
+		}
+	}
 	// random layouts
 	n := 200
 	if thorough {
